@@ -2361,7 +2361,11 @@ class RawAlgorithmsMixIn:
         # print tmp1
         # print 'tmp1[:,:,:rank,:rank]=',tmp1[:,:,:rank,:rank]
         tmp2[...] = 0
-        cls._solve(R_data[:,:,:rank,:rank], cls._transpose(tmp1[:,:,:rank,:rank]), out = tmp2[:,:,:rank,:rank])
+        for p in range(P):
+            # each direction with the rank of ITS zeroth coefficient
+            rank = rank_list[p]
+            if rank > 0:
+                cls._solve(R_data[:,p:p+1,:rank,:rank], cls._transpose(tmp1[:,p:p+1,:rank,:rank]), out = tmp2[:,p:p+1,:rank,:rank])
         tmp2 = tmp2.transpose((0,1,3,2))
 
         # print 'Rbar_data=',Rbar_data[...]
@@ -2383,7 +2387,9 @@ class RawAlgorithmsMixIn:
             cls._dot( Q_data, tmp1, out = tmp3)
             tmp3 *= -1.
             tmp3 += Qbar_data
-            cls._solve(R_data, cls._transpose(tmp3), out = cls._transpose(tmp4))
+            for p in range(P):
+                if rank_list[p] == N:
+                    cls._solve(R_data[:,p:p+1], cls._transpose(tmp3[:,p:p+1]), out = cls._transpose(tmp4[:,p:p+1]))
             Abar_data += tmp4
 
         return out
